@@ -300,6 +300,21 @@ func (g *Engine) registerIntrinsics() {
 		if cut.base == nil || cut.havoc == nil || cut.step == nil {
 			e.unsupported("vxLoopCut: missing hooks for %s", mn)
 		}
+		if len(cut.base.Params) != 1+len(cut.phis) {
+			// another loop shape (e.g. a single index instead of index + re-sliced rest): hooks with the
+			// number of loop-carried variables as suffix, if the harness provides them
+			sfx := fmt.Sprint(len(cut.phis))
+			if b, h, st := e.eng.pkg.Func("vxLoopBase"+mn+sfx), e.eng.pkg.Func("vxLoopHavoc"+mn+sfx), e.eng.pkg.Func("vxLoopStep"+mn+sfx); b != nil && h != nil && st != nil {
+				cut.base, cut.havoc, cut.step = b, h, st
+			}
+		}
+		if len(cut.base.Params) == 1+len(cut.phis) {
+			for i, ph := range cut.phis {
+				if !types.Identical(ph.Type(), cut.base.Params[1+i].Type()) {
+					e.unsupported("vxLoopCut: loop variable %d of %s has type %s, the hooks expect %s (the loop's shape changed)", i, fn, ph.Type(), cut.base.Params[1+i].Type())
+				}
+			}
+		}
 		if len(cut.base.Params) != 1+len(cut.phis) || len(cut.step.Params) != 1+len(cut.phis) {
 			e.unsupported("vxLoopCut: the loop of %s carries %d variables, the hooks expect %d (the loop's shape changed)", fn, len(cut.phis), len(cut.base.Params)-1)
 		}
@@ -309,11 +324,29 @@ func (g *Engine) registerIntrinsics() {
 		e.loopCuts[fn] = cut
 		return nil
 	})
+	// vxStepBudget(n): from here on the path may execute at most n SSA instructions (0 = no limit);
+	// exceeding it is reported as non-termination (concrete loops that never exit are otherwise only
+	// stopped by the global instruction budget, as inconclusive)
+	vx("vxStepBudget", func(e *Exec, a []Value, pos token.Pos) Value {
+		n := e.argInt(a[0])
+		e.stepBudget = n
+		if n == 0 {
+			e.stepLimit = 0
+		} else {
+			e.stepLimit = e.instrs + n
+		}
+		return nil
+	})
 	vx("vxGuardsOff", func(e *Exec, a []Value, pos token.Pos) Value {
 		e.guards = nil
 		return nil
 	})
 	vx("vxMutexHeld", func(e *Exec, a []Value, pos token.Pos) Value {
+		p := a[0].(*Ptr)
+		ms := e.mutex[mutexKey(p)]
+		return e.tb.Bool(ms != nil && (ms.held > 0 || ms.readers > 0))
+	})
+	vx("vxRWMutexHeld", func(e *Exec, a []Value, pos token.Pos) Value {
 		p := a[0].(*Ptr)
 		ms := e.mutex[mutexKey(p)]
 		return e.tb.Bool(ms != nil && (ms.held > 0 || ms.readers > 0))
